@@ -174,11 +174,14 @@ pub struct Trace<N> {
     pub min_kink: f64,
     /// smallest gap between the largest and the second largest entry of any pooling window
     pub min_gap: f64,
+    /// largest |pre-activation| in front of a sigmoid / tanh / soft-max (saturation)
+    pub max_sat: f64,
 }
 
 struct Watch {
     min_kink: f64,
     min_gap: f64,
+    max_sat: f64,
 }
 
 fn apply<N: Num>(l: &L, sh: &LShape, p: &P<N>, x: &[N], w: &mut Watch) -> LTrace<N> {
@@ -191,6 +194,11 @@ fn apply<N: Num>(l: &L, sh: &LShape, p: &P<N>, x: &[N], w: &mut Watch) -> LTrace
         if matches!(a, Act::Relu | Act::Leaky) {
             for v in pre {
                 w.min_kink = w.min_kink.min(v.val().abs());
+            }
+        }
+        if matches!(a, Act::Sigmoid | Act::Tanh | Act::Softmax) {
+            for v in pre {
+                w.max_sat = w.max_sat.max(v.val().abs());
             }
         }
     };
@@ -252,7 +260,7 @@ fn apply<N: Num>(l: &L, sh: &LShape, p: &P<N>, x: &[N], w: &mut Watch) -> LTrace
 /// `src_combined`: when the source layer of a skip connection is itself a target, use its combined
 /// (true) or its ordinary (false) input as "the input that was fed to layer a".
 pub fn forward<N: Num>(net: &Net, shapes: &[LShape], params: &[P<N>], x: &[N], src_combined: bool) -> Trace<N> {
-    let mut w = Watch { min_kink: f64::INFINITY, min_gap: f64::INFINITY };
+    let mut w = Watch { min_kink: f64::INFINITY, min_gap: f64::INFINITY, max_sat: 0.0 };
     let mut activated: Vec<Vec<N>> = vec![x.to_vec()];
     let mut fed: Vec<Vec<N>> = Vec::new();
     let mut layers = Vec::new();
@@ -289,7 +297,7 @@ pub fn forward<N: Num>(net: &Net, shapes: &[LShape], params: &[P<N>], x: &[N], s
         }
         activated.push(handed);
     }
-    Trace { layers, activated, min_kink: w.min_kink, min_gap: w.min_gap }
+    Trace { layers, activated, min_kink: w.min_kink, min_gap: w.min_gap, max_sat: w.max_sat }
 }
 
 pub fn to_f64(p: &[P<f32>]) -> Vec<P<f64>> {
